@@ -17,7 +17,7 @@
 use gimli::write::{self, Address, EndianVec};
 use gimli::{
     constants as c, AttributeValue as AV, BaseAddresses, CfaRule, DebugFrame, EhFrame, Encoding, EndianSlice, Format,
-    Reader, ReaderOffset, Register, RegisterRule, RunTimeEndian, SectionId, UnitSectionOffset, UnwindContext,
+    ReaderOffset, Register, RegisterRule, RunTimeEndian, SectionId, UnwindContext,
     UnwindContextStorage, UnwindSection, UnwindTableRow,
 };
 use gvh::opjson::op_json;
@@ -978,8 +978,9 @@ fn run_dwarf(base: &str, api: &str, secs: Secs, endian: RunTimeEndian, seed: u64
 }
 
 /// A stand-alone line program (no unit): `Dwarf::read_line_program`.
-fn run_line(base: &str, secs: Secs, endian: RunTimeEndian, asz: u8, by_sequence: bool, evs: &mut Vec<J>) {
-    let api = if by_sequence { "read_sequence" } else { "read_row" };
+fn run_line(base: &str, secs: Secs, endian: RunTimeEndian, asz: u8, api: &str, evs: &mut Vec<J>) {
+    let by_sequence = api == "read_sequence";
+    let all_in_one = api == "convert";
     let tag = || json!({"what":"line","base":base,"api":api});
     let dump = |secs: &Secs| -> Result<(J, Vec<J>, gimli::Dwarf<Rd<'static>>, gimli::IncompleteLineProgram<Rd<'static>>), String> {
         let d = load_dwarf(secs, endian);
@@ -992,7 +993,10 @@ fn run_line(base: &str, secs: Secs, endian: RunTimeEndian, asz: u8, by_sequence:
     };
     let conv = |d: &'static gimli::Dwarf<Rd<'static>>, p: gimli::IncompleteLineProgram<Rd<'static>>| -> Result<Secs, (String, String)> {
         let mut w = write::Dwarf::new();
-        let program = {
+        let program = if all_in_one {
+            let cp = w.read_line_program(d, p, None, None).map_err(|e| ("convert".to_string(), format!("{:?}", e)))?;
+            cp.convert(&ca).map_err(|e| ("convert".to_string(), format!("{:?}", e)))?.0
+        } else {
             let mut cp = w.read_line_program(d, p, None, None).map_err(|e| ("convert".to_string(), format!("{:?}", e)))?;
             let r: Result<(), write::ConvertError> = (|| {
                 if by_sequence {
@@ -1182,7 +1186,7 @@ fn gen_dwarf(seed: u64, endian: RunTimeEndian) -> Result<Secs, String> {
             let lenc = gimli::LineEncoding { line_base: lb, line_range: lr, ..lenc };
             // all directory and file names of one program must use the same form
             let inline_strings = enc.version <= 4 || r.chance(1, 2);
-            let mut mk = |b: &[u8], ls: &mut write::LineStringTable| -> write::LineString {
+            let mk = |b: &[u8], ls: &mut write::LineStringTable| -> write::LineString {
                 if inline_strings { write::LineString::String(b.to_vec()) } else { write::LineString::new(b, enc, ls) }
             };
             let wd = mk(&b"/work/dir"[..], &mut dwarf.line_strings);
@@ -1634,7 +1638,7 @@ fn replay(case: &J) -> J {
                     secs.insert(k.clone(), leak(bytes_of(v)));
                 }
             }
-            run_line(base, secs, endian, asz, case["api"].as_str() == Some("read_sequence"), &mut evs);
+            run_line(base, secs, endian, asz, case["api"].as_str().unwrap_or("convert"), &mut evs);
         }
         _ => evs.push(json!({"ev":"NoInput","what":what,"base":base})),
     }
